@@ -185,3 +185,31 @@ PROPS["C12"] = {
     "trusted": PROPS["C11"]["trusted"],
     "assumptions": [],
 }
+
+PROPS["C09"] = {
+    "lean_modules": ["BurrowVerif.Props.C09"],
+    "props_files": ["BurrowVerif/Props/C09.lean"],
+    "anchors": ["core/internal/storage/inmemory.go"],
+    "streams": [dict(_STORAGE_STREAM, keys={"list", "offs", "win", "lag", "own", "bro", "gs", "parts", "count"})],
+    "rule": _STORAGE_RULE + " After every deletion of any kind all six fetch kinds are issued for every known cluster, group and topic (the frame condition, observed); expire-group 1/5 s cases place commit times on and around the expiry boundary and age the store by time shifting.",
+    "trusted": [
+        "a status query is answered through the evaluator cache, whose permitted staleness is C05's subject: here status is evaluated by a fresh evaluator on the current storage",
+        "the corner 'delete-group-topic on a group left with no topics removes the group, also when the topic was not among them' is what the code does and what deleteGroupTopic_removes states",
+    ],
+    "assumptions": PROPS["C01"]["assumptions"],
+}
+PROPS["C10"] = {
+    "lean_modules": ["BurrowVerif.Props.C10"],
+    "props_files": ["BurrowVerif/Props/C10.lean"],
+    "anchors": ["core/internal/storage/inmemory.go", "core/internal/consumer/kafka_client.go", "core/internal/consumer/kafka_zk_client.go", "core/internal/notifier/coordinator.go"],
+    "streams": [dict(_STORAGE_STREAM, keys={"list", "win", "own"}),
+                dict(_DECODE_STREAM, keys={"reqs"}),
+                dict(_NOTIFIER_STREAM, keys={"notes"})],
+    "rule": ("three streams, each with allow/deny regexp pairs (none, either, both, overlapping): " + _STORAGE_RULE + " | " + _DECODE_RULE + " | " + _NOTIFIER_RULE),
+    "trusted": [
+        "regexp matching is an oracle bit computed by the harness with Go's regexp on the same pattern and group name and handed to the model",
+        "Burrow's own progress report (group burrow-<module>) is a synthetic commit, not a group read from the topic, and is out of scope (DESIGN 4.10)",
+        "the Zookeeper reader's single gate (resetGroupListWatchAndAdd) is covered by the extracted accept-site fact only; its watch dynamics are not modelled",
+    ],
+    "assumptions": PROPS["C01"]["assumptions"],
+}
